@@ -3,6 +3,7 @@ package sql
 import (
 	"expvar"
 	"fmt"
+	"io"
 	"math"
 	"math/rand/v2"
 	"strconv"
@@ -64,28 +65,9 @@ func Process(stmts []*proto.Statement, rwrand, rwtime bool) (retErr error) {
 			continue
 		}
 		// The text may hold further statements, all of which the database driver
-		// executes. Rewrite each of them and keep them all.
-		if more, err := parser.ParseStatements(); err != nil {
-			continue
-		} else if len(more) > 0 {
-			parts := make([]string, 0, len(more)+1)
-			anyRewritten := false
-			for _, p := range append([]sql.Statement{parsed}, more...) {
-				rewriter := NewRewriter()
-				rewriter.RewriteRand = rwrand
-				rewriter.RewriteTime = rwtime
-				rwStmt, rewritten, _, err := rewriter.Do(p)
-				if err != nil {
-					parts = nil
-					break
-				}
-				anyRewritten = anyRewritten || rewritten
-				parts = append(parts, rwStmt.String())
-			}
-			if parts != nil && anyRewritten {
-				stats.Add(numRewrittenStmts, 1)
-				stmts[i].Sql = strings.Join(parts, "; ")
-			}
+		// executes. Rewrite those that need it and keep them all.
+		if more, err := parser.ParseStatements(); err != nil || len(more) > 0 {
+			processMulti(stmts[i], rwrand, rwtime)
 			continue
 		}
 		_, stmts[i].SqlExplain = parsed.(*sql.ExplainStatement)
@@ -104,6 +86,81 @@ func Process(stmts []*proto.Statement, rwrand, rwtime bool) (retErr error) {
 		stmts[i].ForceQuery = ret
 	}
 	return nil
+}
+
+// processMulti processes a statement text which holds more than one statement, or
+// empty statements. Each statement is rewritten on its own; a statement that needs no
+// rewriting keeps its original text. As for a single statement, the query and explain
+// markers are those of the first statement. If any statement cannot be parsed the text
+// is left as it is.
+func processMulti(stmt *proto.Statement, rwrand, rwtime bool) {
+	var texts []string
+	anyRewritten, explain, query := false, false, false
+	for _, text := range splitStatements(stmt.Sql) {
+		parsed, err := rsql.NewParser(strings.NewReader(text)).ParseStatement()
+		if err == io.EOF {
+			continue // nothing but comments
+		} else if err != nil {
+			return
+		}
+		rewriter := NewRewriter()
+		rewriter.RewriteRand = rwrand
+		rewriter.RewriteTime = rwtime
+		rwStmt, rewritten, ret, err := rewriter.Do(parsed)
+		if err != nil {
+			return
+		}
+		if len(texts) == 0 {
+			explain, query = isExplain(parsed), ret
+		}
+		if rewritten {
+			anyRewritten = true
+			text = rwStmt.String()
+		} else if strings.Contains(text, "--") {
+			// The text may end in a comment, which must not swallow the separator.
+			text += "\n"
+		}
+		texts = append(texts, text)
+	}
+	if len(texts) == 0 {
+		return
+	}
+	stmt.SqlExplain, stmt.ForceQuery = explain, query
+	if anyRewritten {
+		stats.Add(numRewrittenStmts, 1)
+		stmt.Sql = strings.Join(texts, "; ")
+	}
+}
+
+func isExplain(s sql.Statement) bool {
+	_, ok := s.(*sql.ExplainStatement)
+	return ok
+}
+
+// splitStatements splits a statement text at its top-level semicolons, dropping
+// empty statements.
+func splitStatements(text string) []string {
+	runes := []rune(text)
+	var texts []string
+	start := 0
+	add := func(end int) {
+		if t := strings.TrimSpace(string(runes[start:end])); t != "" {
+			texts = append(texts, t)
+		}
+	}
+	scanner := rsql.NewScanner(strings.NewReader(text))
+	for {
+		pos, tok, _ := scanner.Scan()
+		if tok == rsql.EOF {
+			break
+		}
+		if tok == rsql.SEMI {
+			add(pos.Offset)
+			start = pos.Offset + 1
+		}
+	}
+	add(len(runes))
+	return texts
 }
 
 // ContainsTime returns true if the statement contains a time-related function.
